@@ -129,6 +129,7 @@ def run_task(source, contracts, loops, qualname, natives=None, timeout_ms=10000,
                 res.out_of_reach = "vacuous: precondition unsatisfiable"
                 return res
             old_st = st.fork()
+            ctx.base_state = old_st
             for st1, value in ex.inline(fv, list(args), dict(kwargs), st, fnode):
                 res.paths += 1
                 if contract is None:
